@@ -87,14 +87,24 @@ impl RoutingTable {
             return false;
         }
 
-        // A node we already know (same id) is not competing with itself for its IP's slot,
-        // let it through so that the bucket can update its `last_seen`.
-        if self.buckets().values().any(|bucket| {
-            bucket.nodes.iter().any(|existing| {
-                existing.id() != node.id()
-                    && node.already_exists(std::slice::from_ref(existing))
+        // A node we already know (same id, same ip) is not competing for its IP's slot, not with
+        // itself and not with the other nodes that share its IP, let it through so that the
+        // bucket can update its `last_seen`.
+        let already_known = self.buckets.get(&distance).is_some_and(|bucket| {
+            bucket
+                .nodes
+                .iter()
+                .any(|existing| existing.id() == node.id() && existing.same_ip(&node))
+        });
+
+        if !already_known
+            && self.buckets().values().any(|bucket| {
+                bucket.nodes.iter().any(|existing| {
+                    existing.id() != node.id()
+                        && node.already_exists(std::slice::from_ref(existing))
+                })
             })
-        }) {
+        {
             return false;
         };
 
